@@ -84,6 +84,11 @@ def swapped_duplicates():
     for mk in (lambda a, b: ('jump', a, ('EF', ('var', b))), lambda a, b: ('jump', a, ('EX', ('EX', ('var', b)))), lambda a, b: ('EU', ('var', a), ('var', b))):
         out.append(('exists', 'x', None, ('exists', 'xx', None, ('and', mk('x', 'xx'), ('not', mk('xx', 'x'))))))
         out.append(('bind', 'x', None, ('exists', 'xx', None, ('exists', 'xxx', None, ('and', ('and', mk('x', 'xxx'), mk('xx', 'xxx')), ('and', ('jump', 'x', ('not', XX)), mk('xxx', 'x')))))))
+    # one-variable duplicates whose value depends on SOME components of the variable only (@{x}: v0 looks at v0 of x)
+    p0, p1 = ('prop', 'v0'), ('prop', 'v1')
+    for body in (lambda v: ('jump', v, p0), lambda v: ('jump', v, ('and', p1, ('EX', p0))), lambda v: ('EX', ('jump', v, ('not', p1)))):
+        out.append(('exists', 'x', None, ('exists', 'xx', None, ('and', body('x'), ('not', body('xx'))))))
+        out.append(('and', ('exists', 'x', None, ('and', body('x'), X)), ('exists', 'x', None, ('exists', 'xx', None, ('and', ('and', ('EX', X), XX), body('xx'))))))
     return out
 
 def subformulas(phi):
